@@ -3,6 +3,7 @@ package main
 import (
 	"go/constant"
 	"go/token"
+	"strings"
 	"go/types"
 
 	"golang.org/x/tools/go/ssa"
@@ -314,6 +315,67 @@ func checkC09(e *Engine, r *Report) {
 		})
 		fmName := constant.StringVal(e.Obj(pkgFmTypes, "ModuleName").(*types.Const).Val())
 		r.Check(names[fmName], "app.orderEndBlockers › feemarket listed", e.Pos(oe.Pos()), "feemarket in the end-blocker order", "feemarket is not in orderEndBlockers")
+		// ordered list
+		order := map[string]int{}
+		allInstrs(oe, false, func(_ *ssa.Function, _ *ssa.BasicBlock, i ssa.Instruction) {
+			if st, ok := i.(*ssa.Store); ok {
+				if ia, isIA := st.Addr.(*ssa.IndexAddr); isIA {
+					if k, isK := constInt(ia.Index); isK {
+						if s, isS := constString(st.Val); isS {
+							order[s] = int(k)
+						}
+					}
+				}
+			}
+		})
+		// modules whose keeper dispatches messages through the message service router and that have an end-blocker
+		// (they can execute a fee-market MsgUpdateParams at end of block) must run before the fee market's end-blocker,
+		// otherwise the parameters they write are neither adjusted nor clamped for the next block
+		var late []string
+		nDisp := 0
+		for _, f := range e.SrcFuncs(func(p string) bool { return p == pkgApp+"/keepers" || p == pkgApp }) {
+			for _, c := range callsIn(f, false, func(c ssa.CallInstruction) bool {
+				for _, a := range c.Common().Args {
+					if cc, _ := callOf(a); cc != nil && isMethodNamed(cc, "MsgServiceRouter") {
+						return true
+					}
+				}
+				return false
+			}) {
+				fo := calleeObj(c)
+				if fo == nil || fo.Pkg() == nil || !strings.HasSuffix(fo.Pkg().Path(), "/keeper") {
+					continue
+				}
+				modPkg := strings.TrimSuffix(fo.Pkg().Path(), "/keeper")
+				var modName string
+				for _, cand := range []string{modPkg + "/types", modPkg} {
+					if o, ok := e.TryObj(cand, "ModuleName").(*types.Const); ok {
+						modName = constStringVal(o)
+					}
+				}
+				am, _ := e.TryObj(modPkg, "AppModule").(*types.TypeName)
+				if modName == "" || am == nil {
+					continue
+				}
+				hasEnd := false
+				for _, t := range []types.Type{am.Type(), types.NewPointer(am.Type())} {
+					ms := types.NewMethodSet(t)
+					for i := 0; i < ms.Len(); i++ {
+						if ms.At(i).Obj().Name() == "EndBlock" {
+							hasEnd = true
+						}
+					}
+				}
+				if !hasEnd {
+					continue
+				}
+				nDisp++
+				if idx, listed := order[modName]; listed && idx > order[fmName] {
+					late = append(late, modName)
+				}
+			}
+		}
+		r.Check(nDisp > 0 && len(late) == 0, "app.orderEndBlockers › message-dispatching end-blockers run before feemarket", e.Pos(oe.Pos()), itoa(nDisp)+" dispatching module(s) with an end-blocker (gov), all before feemarket", "a module whose end-blocker executes messages ("+strings.Join(late, ",")+", e.g. a passed fee-market MsgUpdateParams proposal) runs after the fee market's end-blocker: the base fee it writes is used for the next block un-adjusted and un-clamped (below the global minimum gas price)")
 	})
 
 	r.Rule("R5", "MUST-PASS+SHAPE", "admission: getTxPriority errors when fee/gas < minimum; getMinGasPricesAllowed >= base fee and >= trunc(global MinGasPrice) on every path; in both fee checkers the coins RETURNED (deducted) are the very value whose price passed getTxPriority against getMinGasPricesAllowed of the same fee-market params; the checker is wired into the SDK DeductFeeDecorator", 9, func() {
